@@ -74,8 +74,12 @@ func (s *Service) Init(ctx context.Context) error {
 	// some instances may be in a running state, put them in StatusSystemStopped state for now
 	for _, instance := range instances {
 		s.instanceNames[instance.Config.Name] = true
-		if instance.GetStatus() == StatusRunning {
-			// change status to "systemStopped" to mark which pipeline was running
+		if instance.GetStatus() == StatusRunning || instance.GetStatus() == StatusRecovering {
+			// change status to "systemStopped" to mark which pipeline was running.
+			// A pipeline stored as "recovering" was between two automatic restart
+			// attempts when the process died: nothing is left to perform that
+			// restart, so it has to be resumed like a running one, otherwise it
+			// would stay "recovering" forever.
 			instance.SetStatus(StatusSystemStopped)
 		}
 
